@@ -5088,7 +5088,8 @@ EmitOp_MemBaseNoImm_Rn5:
   goto EmitOp;
 
 EmitOp_MemBaseIndex_Rn5_Rm16:
-  if (!rm_rel->as<Mem>().has_base_reg()) {
+  // Base must be a valid X register or SP; [base, index] has no pre-index or post-index form.
+  if (!check_mem_base(rm_rel->as<Mem>()) || rm_rel->as<Mem>().is_pre_or_post()) {
     goto InvalidAddress;
   }
 
